@@ -111,6 +111,9 @@ class SArr:
         a = SArr(kw.get('shape', self.shape), kw.get('cplx', self.cplx), kw.get('buf', self.buf), kw.get('contig', self.contig),
                  kw.get('ndim', self.ndim), dict(self.flags) if 'flags' not in kw else kw['flags'], kw.get('kind', self.kind),
                  kw.get('own', self.own))
+        r = self.__dict__.get('roles')
+        if r is not None and len(r) >= len(a.shape):
+            a.roles = tuple(r[:len(a.shape)])
         return a
 
     def __repr__(self):
@@ -123,9 +126,21 @@ def arr_ite(c, a, b):
         return a
     assert len(a.shape) == len(b.shape), 'ite of arrays with different ranks'
     nd = a.ndim if (is_conc_int(a.ndim) and is_conc_int(b.ndim) and a.ndim == b.ndim) else z3.If(c, zi(a.ndim), zi(b.ndim))
-    return SArr([z3.If(c, x, y) for x, y in zip(a.shape, b.shape)], z3.If(c, a.cplx, b.cplx), z3.If(c, a.buf, b.buf),
-                z3.If(c, a.contig, b.contig), nd, {f: z3.If(c, a.flags[f], b.flags[f]) for f in SArr.FLAGS}, a.kind,
-                z3.If(c, a.own, b.own))
+    r = SArr([z3.If(c, x, y) for x, y in zip(a.shape, b.shape)], z3.If(c, a.cplx, b.cplx), z3.If(c, a.buf, b.buf),
+             z3.If(c, a.contig, b.contig), nd, {f: z3.If(c, a.flags[f], b.flags[f]) for f in SArr.FLAGS}, a.kind,
+             z3.If(c, a.own, b.own))
+    ra, rb = a.__dict__.get('roles'), b.__dict__.get('roles')
+    def neutral(x):
+        # a placeholder for a slot that holds an array of another rank, or a boundary array whose axes all have length 1,
+        # has no roles of its own
+        return x.__dict__.get('garbage') or (x.__dict__.get('roles') is None and x.shape and all(z3.is_int_value(t) and t.as_long() == 1 for t in x.shape))
+    if neutral(a):
+        ra = rb
+    if neutral(b):
+        rb = ra
+    if ra is not None and ra == rb:
+        r.roles = ra            # index roles (ghost, see npmodel.ROLE_PAIRS) survive a merge only if both sides agree
+    return r
 
 
 def widen5(a):
@@ -171,6 +186,13 @@ def dtype_cplx(x):
 def val_ite(c, a, b):
     if a is b:
         return a
+    if isinstance(c, bool):
+        return a if c else b
+    cs = z3.simplify(c)
+    if z3.is_true(cs):
+        return a
+    if z3.is_false(cs):
+        return b
     if dtype_cplx(a) is not None and dtype_cplx(b) is not None:
         return SDType(z3.simplify(z3.If(zb(c), dtype_cplx(a), dtype_cplx(b))))
     if isinstance(a, SArr) and isinstance(b, SArr):
@@ -333,6 +355,7 @@ class SList:
         if want is not None and isinstance(val, SArr) and len(val.shape) != want:
             tr[key] = (zi(idx), val)
             garbage = SArr([fresh('g') for _ in range(want)], fresh('gcx', 'bool'), fresh('gbuf'), False, ndim=fresh('gnd'))
+            garbage.garbage = True
             val = garbage if not self.kind.startswith('optarr') else SOpt(fresh('gdef', 'bool'), garbage)
         else:
             for k2, (ti, _) in list(tr.items()):
